@@ -240,6 +240,15 @@ const PPC_REGISTERS: &[PpcRegister] = &[
     },
 ];
 
+/// Verification hook: the (name, bits) of every entry of `PPC_REGISTERS`.
+#[cfg(falconre_falcon_verif)]
+pub fn verif_registers() -> Vec<(String, usize)> {
+    PPC_REGISTERS
+        .iter()
+        .map(|register| (register.name.to_string(), register.bits))
+        .collect()
+}
+
 /// Takes a capstone register enum and returns a `MIPSRegister`
 pub fn get_register(capstone_id: ppc_reg) -> Result<&'static PpcRegister, Error> {
     for register in PPC_REGISTERS.iter() {
